@@ -52,6 +52,23 @@ func splitFunc(data []byte, atEOF bool) (advance int, token []byte, err error) {
 type Parser struct {
 	inputScanner *bufio.Scanner
 	fieldScanner *FieldParser
+	// atStart is true until the first token is scanned or input is skipped before it.
+	// Only a token which starts at the very beginning of the input may have its BOM removed.
+	atStart bool
+}
+
+// split wraps splitFunc in order to detect whether the first token really is at the start
+// of the input, i.e. no blank lines were skipped before it.
+func (r *Parser) split(data []byte, atEOF bool) (advance int, token []byte, err error) {
+	advance, token, err = splitFunc(data, atEOF)
+	if r.atStart && token != nil {
+		r.atStart = false
+		if len(token) != advance {
+			// Blank lines precede the token, so a BOM in it is not at the start of the stream.
+			r.fieldScanner.RemoveBOM(false)
+		}
+	}
+	return advance, token, err
 }
 
 // Next parses a single field from the reader. It returns false when there are no more fields to parse.
@@ -108,10 +125,12 @@ func (r *Parser) Buffer(buf []byte, maxSize int) {
 // New returns a Parser that extracts fields from a reader.
 func New(r io.Reader) *Parser {
 	sc := bufio.NewScanner(r)
-	sc.Split(splitFunc)
 
 	fsc := NewFieldParser("")
 	fsc.RemoveBOM(true)
 
-	return &Parser{inputScanner: sc, fieldScanner: fsc}
+	p := &Parser{inputScanner: sc, fieldScanner: fsc, atStart: true}
+	sc.Split(p.split)
+
+	return p
 }
